@@ -456,3 +456,14 @@ def build_feedbastion_writer_test():
     if rc != 0:
         raise Inconclusive("cmd/feedbastion test binary does not build:\n" + o[-4000:])
     return out
+
+
+def build_bastion_fuzz_test():
+    """coverage-instrumented test binary of /repo/internal/feeder/bastion with the harness' fuzz target supplied through -overlay"""
+    out = os.path.join(HARNESS, "bin", "bastion.fuzz.test")
+    ov = os.path.join(HARNESS, "bin", "overlay-fuzz.json")
+    json.dump({"Replace": {os.path.join(REPO, "internal/feeder/bastion/zz_verif_fuzz_test.go"): os.path.join(HARNESS, "shims", "bastion_fuzz_test.go")}}, open(ov, "w"))
+    rc, o, dt = sh(["go", "test", "-c", "-fuzz", "FuzzAddCheckpoint", "-vet=off", "-tags", "verif", "-overlay", ov, "-o", out, "./internal/feeder/bastion"], cwd=REPO, env=GOENV, timeout=1800)
+    if rc != 0:
+        raise Inconclusive("bastion fuzz test binary does not build:\n" + o[-4000:])
+    return out
